@@ -654,7 +654,12 @@ func (g *gen) stmt(lvl int) string {
 		g.loop++
 		body := g.block(1+g.t.Draw(2), lvl+1)
 		if g.t.Bool(1, 4) {
-			body += ind(lvl+1) + "if (" + g.expr(tBool, 1) + ") { " + []string{"break", "continue"}[g.t.Draw(2)] + " }\n"
+			jump := []string{"break", "continue"}[g.t.Draw(2)]
+			if g.t.Bool(1, 3) {
+				// a statement that can never execute stays behind the jump in the same block
+				jump += "; " + []string{"log(\"dead\")", "dz := 1", "throw \"dead\""}[g.t.Draw(3)]
+			}
+			body += ind(lvl+1) + "if (" + g.expr(tBool, 1) + ") { " + jump + " }\n"
 		}
 		g.loop--
 		g.pop()
@@ -1002,6 +1007,19 @@ func (g *gen) program() (string, []srcModule) {
 				g.addTop("var " + name + " = func(x, ...y) { " + body + " }\n")
 			}
 			g.addTop("log(" + name + "(\"abc\"), " + name + "(7))\n")
+			if b := body; b == "return 42" || b == "return x" {
+				// the rebound name called inside constant-looking arithmetic
+				k := "1"
+				if ks := g.vars(tInt); len(ks) > 0 && g.t.Bool(1, 2) {
+					for _, v := range ks {
+						if v.konst && strings.HasPrefix(v.name, "K") {
+							k = v.name
+							break
+						}
+					}
+				}
+				g.addTop("log(" + name + "(7) + " + k + ", 2 * " + name + "(3))\n")
+			}
 			continue
 		}
 		g.addTop(g.stmt(0))
